@@ -23,6 +23,7 @@ CORPUS = [
     S(("#n", (1,)), ("#n", (1,)), ("n", (4,))), S(("#3", (1,))), S(("#3", (3,))), S(("#3", (2,))), S(("3", (1,))), S(("0", (0,))),
     S(("_ a", (9, 2)), ("a _", (2, 9))), S(("", ())), S(("", (1,))), S(("...", ())), S(("...", (1, 2, 3))),
     S(("a b", (2, 3), {"arr": "notarray"})), S(("a b", (2, 3), {"arr": "duck"})), S(("a b", (2, 3), {"arr": "noattrs"})), S(("a b", (2, 3), {"arr": "any"})),
+    S(("a b", (2, 3), {"arr": "ducktorch"}), ("a b", (2, 3), {"arr": "any"}), ("a b", (2, 3), {"arr": "ducktorch"})), S(("a b", (2, 3), {"arr": "any"}), ("a b", (2, 3), {"arr": "ducktorch"}), ("a b", (2, 3), {"arr": "duck"})),
     S(("a", (2,), {"cat": "Int"})), S(("a", (2,), {"cat": "Int", "dtype": "int32"})), S(("a", (2,), {"cat": "Shaped", "dtype": "bool"})),
     S(("a", (2,), {"cat": "Int"}), ("a", (3,))), S(("a b", (2, 3)), ("b a", (3, 2)), ("a", (3,))),
     S(("{k} a", (2, 3))), S(("{k}+a a", (5, 3))), S(("{q}", (2,))), S(("a {q}", (2, 2))), S(("a//(a-a)", (2,))), S(("a a//(a-a)", (2, 2))),
@@ -95,6 +96,37 @@ def main():
                 R.violation("correspondence", "model and implementation disagree: " + what,
                             {"session": small, "step": j, "impl": got, "model": m}, key={"kind": "memo", "dim": sess["steps"][j]["dim"]},
                             no_input=not verdict_differs)
+    # ---- nested annotations Shaped[Dtype[Array, dims], outer] whose OUTER part names no axis ("...", "3", "_", ""): by the nesting law they
+    #      are the flat annotation Dtype[Array, outer + " " + dims], bind and compare its named axes like any other
+    OUTER = [("...", [[], [4], [4, 2]]), ("3", [[3]]), ("_", [[5]]), ("", [[]]), ("_ 2", [[6, 2]]), ("#3", [[1], [3]])]
+    nsess = []
+    for _ in range(4000 if R.thorough else 250):
+        sess = G.gen_session(R.rng, nsteps=R.rng.choice([2, 3, 4]), p_perturb=.35)
+        for st in sess["steps"]:
+            if R.rng.random() < .55 and "*" not in st["dim"] and "..." not in st["dim"] and st.get("arr", "np") in ("np", "any"):
+                o, pres = R.rng.choice(OUTER)
+                st["outer"] = o
+                st["shape"] = list(R.rng.choice(pres)) + list(st["shape"])
+        nsess.append(sess)
+    nsess += [S(("h w", (4, 5))), S(("h w", (4, 5)))]
+    nsess[-2]["steps"].append(dict(nsess[-2]["steps"][0], outer="...", shape=[2, 4, 6])); nsess[-1]["steps"].insert(0, dict(nsess[-1]["steps"][0], outer="...", shape=[2, 4, 5]))
+    nout = vf.impl("impl_array.py", {"mode": "sessions", "sessions": nsess})
+    flat = [dict(x, steps=[dict(st, dim=(st["outer"] + " " + st["dim"]).strip()) if st.get("outer") is not None else st for st in x["steps"]]) for x in nsess]
+    nmodel = vf.coq_eval_strings(["model.Check"], "fun c => let '(st, args, noctx, steps) := c in run_session st args noctx steps",
+                                 [G.session_coq(f, nout["cat_dtypes"], [y for r in res for y in r.get("syms", [])]) for f, res in zip(flat, nout["results"])], shard=500)
+    for sess, res, mline in zip(nsess, nout["results"], nmodel):
+        msteps = mline.split(" | ") if sess["steps"] else []
+        for j, (st, r, m) in enumerate(zip(sess["steps"], res, msteps)):
+            nchecks += 1
+            got = r["build"] if r["build"] != "ok" else "%s %s" % (r["verdict"], r["memo"])
+            if got != m:
+                vd = got.split(" ")[0] != m.split(" ")[0]
+                ann = "%s[.., %r]" % (st["cat"], st["dim"]) if st.get("outer") is None else "Shaped[%s[.., %r], %r]" % (st["cat"], st["dim"], st["outer"])
+                R.violation("property" if vd else "correspondence", "nested annotation, step %d: isinstance(array%s %s, %s) -> implementation `%s`, the flat annotation it equals gives (model) `%s`; earlier steps %s" % (
+                    j, tuple(st["shape"]), st["dtype"], ann, got, m, [(x.get("outer"), x["dim"], tuple(x["shape"])) for x in sess["steps"][:j]]),
+                    {"session": dict(sess, steps=sess["steps"][:j + 1]), "step": j, "impl": got, "model": m}, key={"kind": "nested-" + ("verdict" if vd else "memo")}, no_input=not vd)
+                if vd:
+                    break
     # ---- search: a disagreement on the bindings only is turned into a concrete wrong VERDICT by trying follow-up checks
     memo_only = [v for v in R.violations if v["kind"] == "correspondence" and v["no_input"] and "session" in v["case"]][:12]
     if memo_only and not any(v["kind"] == "property" for v in R.violations):
